@@ -458,6 +458,82 @@ class Oracle:
                 self.report(self.KNOWN_ANGLE, "planet_star_conjunction with RA differences %r raises ValueError(%s); the float table has its root at %r"
                             % (da, " ".join(str(ex).split()), rf), ctor, "i.root()", [ns, da])
 
+    # --- sequences: a copy and its original must not share mutable state --------------------------
+    def check_sequences(self, rng, full):
+        """b = Interpolation(a); a.set(other data) (and the reverse, set() with nothing, re-setting the copy):
+        afterwards BOTH objects must still pass through their own tables."""
+        I = self.I
+        def own_table(o, xs, ys):
+            """None or a description of how object o fails to represent the table (xs sorted, ys)"""
+            try:
+                if len(o) != len(xs): return "len() = %r, table has %d points" % (len(o), len(xs))
+                if list(o._x) != list(xs) or list(o._y) != list(ys): return "_x = %r, _y = %r" % (o._x, o._y)
+                for a, b in zip(xs, ys):
+                    v = o(a)
+                    if v != b: return "value at node %r is %r, table says %r" % (a, v, b)
+                P = lagrange_poly(xs, ys)
+                for k in range(len(xs) - 1):
+                    m = 0.5 * (xs[k] + xs[k + 1])
+                    v = o(m)
+                    if not abs(Fr(v) - peval(P, m)) <= Fr(1, 10**9) * max(pabs_eval(P, m), Fr(1)):
+                        return "value at %r is %r, polynomial through its table gives %.17g" % (m, v, float(peval(P, m)))
+                    o.derivative(m)
+            except Exception as ex:
+                return "raises %s(%s)" % (type(ex).__name__, ex)
+            return None
+        HDR = ("PYTHONPATH=/repo /venv/bin/python -c \"from pymeeus.Interpolation import Interpolation; %s\"")
+        for _ in range(40 if not full else 400):
+            x1, y1, _, _ = gen_table(rng, rng.randint(2, 7), want="smooth")
+            x2, y2, _, _ = gen_table(rng, rng.randint(2, 7), want="smooth")
+            s1 = shuffled(rng, x1, y1); s2 = shuffled(rng, x2, y2)
+            A1, A2 = "%s, %s" % (fl(s1[0]), fl(s1[1])), "%s, %s" % (fl(s2[0]), fl(s2[1]))
+            scen = [
+                ("copy then set() on the original",
+                 "a = Interpolation(%s); b = Interpolation(a); a.set(%s)" % (A1, A2),
+                 lambda: self._seq(lambda a, b: a.set(*s2), s1), (x2, y2), (x1, y1)),
+                ("copy then set() on the copy",
+                 "a = Interpolation(%s); b = Interpolation(a); b.set(%s)" % (A1, A2),
+                 lambda: self._seq(lambda a, b: b.set(*s2), s1), (x1, y1), (x2, y2)),
+                ("copy then empty set() on the original",
+                 "a = Interpolation(%s); b = Interpolation(a); a.set()" % A1,
+                 lambda: self._seq(lambda a, b: a.set(), s1), None, (x1, y1)),
+                ("copy then empty set() on the copy",
+                 "a = Interpolation(%s); b = Interpolation(a); b.set()" % A1,
+                 lambda: self._seq(lambda a, b: b.set(), s1), (x1, y1), None),
+                ("set() from another object then re-set that object",
+                 "a = Interpolation(%s); b = Interpolation(); b.set(a); a.set(%s); a.set(%s)" % (A1, A2, A1),
+                 lambda: self._seq2(s1, s2), (x1, y1), (x1, y1)),
+                ("copy, set the original twice, then the copy",
+                 "a = Interpolation(%s); b = Interpolation(a); a.set(%s); a.set(%s); b.set(%s)" % (A1, A2, A2, A2),
+                 lambda: self._seq(lambda a, b: (a.set(*s2), a.set(*s2), b.set(*s2)), s1), (x2, y2), (x2, y2)),
+            ]
+            for name, seq, run, wa, wb in scen:
+                self.n += 1
+                try:
+                    a, b = run()
+                except Exception as ex:
+                    self.findings.append({"key": "copy-shares-state", "what": "%s: the sequence raises %s(%s)" % (name, type(ex).__name__, ex),
+                                          "input": seq, "replay": HDR % (seq + "; print(a._x, b._x)")})
+                    return
+                for nm, o, want in (("a", a, wa), ("b", b, wb)):
+                    if want is None:
+                        bad = None if (len(o) == 0 and o._x == [] and o._y == []) else "is not empty: _x = %r" % (o._x,)
+                    else:
+                        bad = own_table(o, want[0], want[1])
+                    if bad:
+                        self.findings.append({"key": "copy-shares-state",
+                                              "what": "%s: afterwards object %s %s (expected its own table x = %r)" % (name, nm, bad, want[0] if want else []),
+                                              "input": seq,
+                                              "replay": HDR % (seq + "; print(len(a), a._x, a._y, len(b), b._x, b._y); print([a(x) for x in a._x], [b(x) for x in b._x])")})
+                        return
+                self.nontrivial += 1
+
+    def _seq(self, act, s1):
+        a = self.I(list(s1[0]), list(s1[1])); b = self.I(a); act(a, b); return a, b
+
+    def _seq2(self, s1, s2):
+        a = self.I(list(s1[0]), list(s1[1])); b = self.I(); b.set(a); a.set(*s2); a.set(*s1); return a, b
+
     # --- clause: conjunction helpers ------------------------------------------------------------
     def check_clients(self, rng, full):
         A, C = self.Angle, self.C
@@ -613,13 +689,14 @@ def search(rng, tier, deep):
         if got != want:
             O.report("documented-example", "Interpolation(%s): %s = %r, documented %r" % (ctor, call, got, want), ctor, call, [ctor, call])
     O.check_clients(rng, full)
+    O.check_sequences(rng, full)
     O.probe_angle_ordinates(rng, full)
     stats = {"evaluations": O.n, "distinct_nontrivial": O.nontrivial,
              "rule": ("%d tables of 2-9 points (equal / dyadic / arbitrary spacing; data: %s), each supplied shuffled and in every input form; "
                       "values and derivatives compared with the exact (Fraction) Lagrange polynomial to relative 1e-9 between and next to the nodes; "
                       "ValueError outside the table (incl. 2e-10 beyond the ends) and for duplicated abscissae; root()/minmax() on up to 6 "
                       "sign-changing sub-intervals per table in both orientations and with out-of-table limits: result inside the clamped interval, "
-                      "exact polynomial (resp. derivative) zero there to 1e-9; the four Coordinates helpers against an independent Lagrange interpolation")
+                      "exact polynomial (resp. derivative) zero there to 1e-9; the four Coordinates helpers against an independent Lagrange interpolation; call sequences (copy, then set() on either object) after which both objects must still represent their own tables")
                      % (ntab, ", ".join("%s %d" % kv for kv in sorted(kinds.items()))),
              "samples": [{"input": "Interpolation([-1.0, 0.0, 1.0], [-2.0, 3.0, 2.0]).root()", "checked": "-0.72075922 inside [-1, 1], P(root) = 0 to 1e-9"}],
              "exhaustive_search": False}
